@@ -1125,7 +1125,6 @@ func isRangeOverChan(in ssa.Instruction) bool {
 	return isChan
 }
 
-
 // discardingDrain: f is a goroutine body that only receives from one channel in a loop and ignores what it receives,
 // and its go statement is dominated by a call of (*Device).ProcessEvents in the same function - i.e. it starts after the
 // device, whose ProcessEvents joins its own MIDI-input goroutine before returning (R16.2), has stopped reading.
